@@ -2,6 +2,7 @@ package bloomsearch
 
 import (
 	"math"
+	"reflect"
 )
 
 // MinMaxIndex records the observed numeric range of a field. Values outside
@@ -32,6 +33,11 @@ func ConvertToMinMaxInt64(value any) (minVal int64, maxVal int64, ok bool) {
 	default:
 		intVal, isInt := toInt64(value)
 		if !isInt {
+			// Named floating-point types (type Celsius float64) are not caught
+			// by the type switch above.
+			if rv := reflect.ValueOf(value); rv.IsValid() && (rv.Kind() == reflect.Float32 || rv.Kind() == reflect.Float64) {
+				return floatToMinMaxInt64(rv.Float())
+			}
 			return 0, 0, false
 		}
 		return intVal, intVal, true
@@ -56,7 +62,13 @@ func ConvertToInt64(value any) (int64, bool) {
 	case float64:
 		return floatToInt64(v)
 	default:
-		return toInt64(value)
+		intVal, isInt := toInt64(value)
+		if !isInt {
+			if rv := reflect.ValueOf(value); rv.IsValid() && (rv.Kind() == reflect.Float32 || rv.Kind() == reflect.Float64) {
+				return floatToInt64(rv.Float())
+			}
+		}
+		return intVal, isInt
 	}
 }
 
@@ -105,6 +117,19 @@ func toInt64(value any) (int64, bool) {
 	case uint64:
 		return clampUint64ToInt64(v), true
 	default:
+		// Named integer types (time.Duration, type ID uint32, ...) carry
+		// numeric values too; without this they would not be indexed and a
+		// strict minmax prefilter would drop their block.
+		rv := reflect.ValueOf(value)
+		if !rv.IsValid() {
+			return 0, false
+		}
+		switch rv.Kind() {
+		case reflect.Int, reflect.Int8, reflect.Int16, reflect.Int32, reflect.Int64:
+			return rv.Int(), true
+		case reflect.Uint, reflect.Uint8, reflect.Uint16, reflect.Uint32, reflect.Uint64, reflect.Uintptr:
+			return clampUint64ToInt64(rv.Uint()), true
+		}
 		return 0, false
 	}
 }
